@@ -190,7 +190,9 @@ type streamGRPC struct {
 	opts            muxOptions
 	ctx             context.Context
 	done            <-chan struct{} // ctx.Done()
-	wg              sync.WaitGroup
+	mu              sync.Mutex      // guards closed
+	closed          bool            // handler has returned
+	wg              sync.WaitGroup  // stream calls in flight
 	handler         *handler
 	codec           Codec      // both read and write
 	comp            Compressor // both read and write
@@ -202,6 +204,20 @@ type streamGRPC struct {
 	contentType     string
 	messageEncoding string
 	sentHeader      bool
+}
+
+// enter registers a stream call. It fails once the handler has returned: a
+// goroutine the handler left behind must not touch the request body or the
+// response writer any more. Taking the lock orders every wg.Add before the
+// wg.Wait of serveGRPC.
+func (s *streamGRPC) enter() error {
+	s.mu.Lock()
+	defer s.mu.Unlock()
+	if s.closed {
+		return status.Error(codes.Canceled, "stream closed")
+	}
+	s.wg.Add(1)
+	return nil
 }
 
 func (s *streamGRPC) isDone() error {
@@ -221,7 +237,9 @@ func (s *streamGRPC) SetHeader(md metadata.MD) error {
 	return nil
 }
 func (s *streamGRPC) SendHeader(md metadata.MD) error {
-	s.wg.Add(1)
+	if err := s.enter(); err != nil {
+		return err
+	}
 	defer s.wg.Done()
 
 	if err := s.isDone(); err != nil {
@@ -285,7 +303,9 @@ func (s *streamGRPC) compress(dst *bytes.Buffer, b []byte) error {
 }
 
 func (s *streamGRPC) SendMsg(m interface{}) error {
-	s.wg.Add(1)
+	if err := s.enter(); err != nil {
+		return err
+	}
 	defer s.wg.Done()
 
 	if err := s.isDone(); err != nil {
@@ -384,7 +404,9 @@ func (s *streamGRPC) decompress(dst *bytes.Buffer, b []byte) error {
 }
 
 func (s *streamGRPC) RecvMsg(m interface{}) error {
-	s.wg.Add(1)
+	if err := s.enter(); err != nil {
+		return err
+	}
 	defer s.wg.Done()
 
 	if err := s.isDone(); err != nil {
@@ -592,6 +614,9 @@ func (m *Mux) serveGRPC(w http.ResponseWriter, r *http.Request) {
 	// Sync handler return to stream methods.
 	defer func() {
 		cancel()
+		stream.mu.Lock()
+		stream.closed = true
+		stream.mu.Unlock()
 		stream.wg.Wait()
 	}()
 
